@@ -5,6 +5,7 @@ package codegen
 
 import (
 	"fmt"
+	"strings"
 
 	"github.com/gogpu/naga/ir"
 )
@@ -800,7 +801,7 @@ func (w *Writer) writeImageAtomic(imgAtomic ir.StmtImageAtomic) error {
 
 	// Handle Subtract by negating value
 	if _, isSub := imgAtomic.Fun.(ir.AtomicSubtract); isSub {
-		value = fmt.Sprintf("-%s", value)
+		value = negateText(value)
 	}
 
 	// Build coordinate (array index merged in, unsigned converted to signed)
@@ -812,6 +813,16 @@ func (w *Writer) writeImageAtomic(imgAtomic ir.StmtImageAtomic) error {
 }
 
 // writeAtomic writes an atomic operation statement.
+// negateText puts a minus sign before rendered expression text. Text that
+// itself starts with a minus sign is parenthesised first: "--x" is a
+// decrement, not a double negation.
+func negateText(text string) string {
+	if strings.HasPrefix(text, "-") {
+		return "-(" + text + ")"
+	}
+	return "-" + text
+}
+
 func (w *Writer) writeAtomic(atomic ir.StmtAtomic) error {
 	if !w.options.LangVersion.SupportsCompute() {
 		return fmt.Errorf("atomic operations require GLSL 4.30+ or ES 3.10+")
@@ -836,7 +847,7 @@ func (w *Writer) writeAtomic(atomic ir.StmtAtomic) error {
 		// Rust naga emits "-" before the expression without parentheses:
 		// atomicAdd(ptr, -1u) not atomicAdd(ptr, -(1u))
 		funcName = "atomicAdd"
-		value = fmt.Sprintf("-%s", value)
+		value = negateText(value)
 	case ir.AtomicAnd:
 		funcName = "atomicAnd"
 	case ir.AtomicExclusiveOr:
